@@ -155,13 +155,28 @@ def unhex_fields(fs):
     return [bytes.fromhex(f) for f in fs]
 
 
-def run_harness(prop, seed, count, tier, scratch, extra_env=None):
+def ensure_race_harness():
+    """the same harness built with the Go race detector (bin/harness-race); rebuilt when a source is newer"""
+    hd = os.path.join(ROOT, "harness")
+    out = os.path.join(BIN, "harness-race")
+    srcs = [os.path.join(hd, f) for f in os.listdir(hd) if f.endswith(".go")]
+    stamp = os.path.join(BIN, ".race-fingerprint")
+    fp = repo_fingerprint()
+    if os.path.exists(out) and all(not newer(s, out) for s in srcs) and os.path.exists(stamp) and open(stamp).read() == fp:
+        return True, ""
+    r = sh(["go", "build", "-race", "-o", out, "."], cwd=hd, env=dict(GOENV, CGO_ENABLED="1"))
+    if r.returncode == 0:
+        open(stamp, "w").write(fp)
+    return r.returncode == 0, r.stderr
+
+
+def run_harness(prop, seed, count, tier, scratch, extra_env=None, binary="harness"):
     """returns (cases, notes, errors); cases = [(runner, case_fields, impl_fields)]"""
     os.makedirs(scratch, exist_ok=True)
     env = dict(GOENV, VERIF_SCRATCH=scratch)
     if extra_env:
         env.update(extra_env)
-    r = subprocess.run([os.path.join(BIN, "harness"), prop, str(seed), str(count), tier], capture_output=True, env=env)
+    r = subprocess.run([os.path.join(BIN, binary), prop, str(seed), str(count), tier], capture_output=True, env=env)
     cases, notes, errors = [], {}, []
     if r.returncode != 0:
         errors.append("harness exit %d: %s" % (r.returncode, r.stderr.decode(errors="replace")[-2000:]))
@@ -182,6 +197,7 @@ def run_harness(prop, seed, count, tier, scratch, extra_env=None):
                 cases.append((parts[0], unhex_fields(parts[1:k]), unhex_fields(parts[k + 1:])))
             except ValueError:
                 errors.append("malformed harness line: " + line[:200])
+    notes["_stderr"] = r.stderr.decode(errors="replace") if r.stderr else ""
     if r.stderr:
         tail = r.stderr.decode(errors="replace")
         if "panic:" in tail or "fatal error" in tail:
